@@ -6,7 +6,7 @@ CONSTANT BP = 40
 CONSTANT PairStride = 41
 CONSTANT PairMinGood = 3
 CONSTANT NS = 110
-CONSTANT StackOffsets = {3, 7, 20, -3, -7, -20}
+CONSTANT StackOffsets <- ThoroughOffsets
 CONSTANT StackGrids = {1, 2, 3}
 CONSTANT Families = {"single", "infl", "pair", "pairinfl", "stack"}
 INIT Init
